@@ -121,7 +121,9 @@ def setup_project(case, d):
     paths = {k: os.path.join(d, "%s_mod.py" % k) for k in KEYS}
     project.write_state(paths[truth], truth, "agreeing", lambda: domain.to_ir(case["ir"]), None, method)
     with open(paths[truth]) as f:
-        truth_src = f.read()
+        truth_src = project.handwritten(f.read(), truth, method)
+    with open(paths[truth], "w") as f:
+        f.write(truth_src)
 
     def gold():
         defs, _ = project.find_defs(truth_src, truth, method)
